@@ -74,3 +74,13 @@ ENTRIES = [
 for e in ENTRIES:
     if e['id'].endswith('rename-local'):
         e['all'] = True
+
+LG = 'wpull/backport/logging.py'
+TW = 'wpull/application/tasks/warc.py'
+ENTRIES += [
+    B('log-keywords-into-extra', "        kwargs['extra'] = self.extra\n",
+      "        extra = dict(self.extra)\n        extra.update(\n            (key, value) for key, value in msg_kwargs.items()\n            if key not in kwargs\n        )\n        kwargs['extra'] = extra\n", 'C06-D3', LG),
+    N('log-extra-copied', "        kwargs['extra'] = self.extra\n", "        extra = dict(self.extra)\n        kwargs['extra'] = extra\n", LG),
+    B('setup-removes-journals', "        url_table = session.factory['URLTable'] if args.warc_dedup else None\n",
+      "        url_table = session.factory['URLTable'] if args.warc_dedup else None\n\n        if not args.warc_append:\n            import glob, os\n            for path in glob.glob(glob.escape(args.warc_file) + '*-wpullinc'):\n                os.remove(path)\n", 'C06-D4', TW),
+]
